@@ -21,7 +21,7 @@ import (
 // environment
 
 var (
-	tier     = "quick"
+	tier           = "quick"
 	seed     int64 = 1
 	verifDir       = "/verif"
 	workers        = runtime.NumCPU()
@@ -346,14 +346,17 @@ type capTB struct {
 	msgs   []string
 }
 
-func (t *capTB) Helper()                           {}
-func (t *capTB) Name() string                      { return t.name }
-func (t *capTB) Logf(f string, a ...interface{})   {}
-func (t *capTB) Log(a ...interface{})              {}
-func (t *capTB) Skipf(f string, a ...interface{})  { runtime.Goexit() }
-func (t *capTB) Skip(a ...interface{})             { runtime.Goexit() }
-func (t *capTB) SkipNow()                          { runtime.Goexit() }
-func (t *capTB) Errorf(f string, a ...interface{}) { t.failed = true; t.msgs = append(t.msgs, fmt.Sprintf(f, a...)) }
+func (t *capTB) Helper()                          {}
+func (t *capTB) Name() string                     { return t.name }
+func (t *capTB) Logf(f string, a ...interface{})  {}
+func (t *capTB) Log(a ...interface{})             {}
+func (t *capTB) Skipf(f string, a ...interface{}) { runtime.Goexit() }
+func (t *capTB) Skip(a ...interface{})            { runtime.Goexit() }
+func (t *capTB) SkipNow()                         { runtime.Goexit() }
+func (t *capTB) Errorf(f string, a ...interface{}) {
+	t.failed = true
+	t.msgs = append(t.msgs, fmt.Sprintf(f, a...))
+}
 func (t *capTB) Error(a ...interface{})            { t.failed = true; t.msgs = append(t.msgs, fmt.Sprint(a...)) }
 func (t *capTB) Fatalf(f string, a ...interface{}) { t.Errorf(f, a...); runtime.Goexit() }
 func (t *capTB) Fatal(a ...interface{})            { t.Error(a...); runtime.Goexit() }
